@@ -168,14 +168,6 @@ func peek(input OmegaInput) (output OmegaOutput) {
 
 	n, o, s, z := input.VM.Registers[7], input.VM.Registers[8], input.VM.Registers[9], input.VM.Registers[10]
 
-	if z == 0 {
-		input.VM.Registers[7] = OK
-		return OmegaOutput{
-			ExitReason: ExitContinue,
-			Addition:   input.Addition,
-		}
-	}
-
 	// z = offset
 	if !isWriteable(o, z, *input.VM.Memory) { // not writeable, return
 		return OmegaOutput{
